@@ -7,7 +7,7 @@ VIOLATION lines (exit 0, or exit 2 when an anchor can no longer be followed).
 The twin's own equivalence demonstration (equiv.py, written by the sub-agent
 that produced the refactoring) compares the pristine package with the
 refactored one in two subprocesses; it expects the pristine copy at
-/tmp/twinsA/<Cxx>/orig and the refactored tree at /tmp/wt/<Cxx>.  Both are
+/tmp/twinsA/<Cxx>/orig (or /tmp/twinsB/<Cxx>/orig) and the refactored tree at /tmp/wt/<Cxx>.  Both are
 created here as scratch git worktrees of /repo and removed afterwards.
 """
 import json
@@ -16,11 +16,22 @@ import shutil
 import subprocess
 import sys
 
+# the checker tree to run (a frozen copy while the live one is being edited)
+HOME = os.environ.get('TTSA_HOME', '/verif')
+
 sid = sys.argv[1]
 args = [a for a in sys.argv[2:] if not a.startswith('--')]
-src = args[0] if args else '/verif/twins/' + sid
+src = args[0] if args else HOME + '/twins/' + sid
 prop = sid.split('-')[0]
-base = '/tmp/twinsA/%s' % prop
+# the sub-agent rounds wrote their demonstrations against different scratch
+# roots (/tmp/twinsA, /tmp/twinsB): follow the one named in equiv.py
+root = 'twinsA'
+try:
+    if '/tmp/twinsB/' in open(src + '/equiv.py').read():
+        root = 'twinsB'
+except OSError:
+    pass
+base = '/tmp/%s/%s' % (root, prop)
 orig = base + '/orig'
 wt = '/tmp/wt/%s' % prop
 
@@ -56,12 +67,12 @@ try:
         res['equiv_exit'] = rc
         res['equiv_msg'] = out.strip().splitlines()[-1][:200] \
             if out.strip() else ''
-    man = json.load(open('/verif/MANIFEST.json'))
+    man = json.load(open(HOME + '/MANIFEST.json'))
     fired = {}
     for c in man['checks']:
         pid = c['property_id']
         rc, out = sh('/venv/bin/python -m ttsa check %s --repo %s '
-                     '--no-evidence' % (pid, wt), cwd='/verif', timeout=900)
+                     '--no-evidence' % (pid, wt), cwd=HOME, timeout=900)
         if rc != 0:
             lines = [l for l in out.splitlines()
                      if ('[' in l and ']' in l and '::' in l) or
